@@ -236,8 +236,30 @@ func Run(bh Behaviour, seed int64) ([]Line, error) {
 			ln.Res = "ok"
 		case "Rotate":
 			reinit, _ := op["reinit"].(bool)
+			fault, _ := op["fault"].(string)
+			if fault == "" {
+				fault = "none"
+				op["fault"] = fault
+			}
+			extra := []nodeenrollment.Option{nodeenrollment.WithReinitializeRoots(reinit)}
+			if lx := num(op, "Lx"); lx > 0 && lx != cfg.L {
+				// this call sees a different certificate lifetime (an operator changed the configuration)
+				extra = append(extra, nodeenrollment.WithCertificateLifetime(time.Duration(lx)*r.unit))
+				pp := map[string]int{}
+				for k, v := range p {
+					pp[k] = v
+				}
+				pp["L"] = lx * K
+				ln.P = pp
+			}
+			if fault != "none" {
+				w.Rec.Fail = world.FaultGeneric
+				w.Rec.FailType = "RootCertificates"
+				w.Rec.FailOp = map[string]string{"remove": "Remove", "load": "Load", "store": "Store"}[fault]
+			}
 			t0 := time.Now()
-			ret, err := rotation.RotateRootCertificates(w.Ctx, w.Store, r.opts(nodeenrollment.WithReinitializeRoots(reinit))...)
+			ret, err := rotation.RotateRootCertificates(w.Ctx, w.Store, r.opts(extra...)...)
+			w.Rec.FailOp = ""
 			if time.Since(t0) > 200*r.fine && time.Since(t0) > 50*time.Millisecond {
 				ln.Unc = true
 			}
